@@ -50,8 +50,9 @@ type Blocked struct {
 	What   string
 	Stack  []string
 	// Finished threads are listed too (Finished=true).
-	Finished    bool
-	LastPreempt string
+	Finished         bool
+	LastPreempt      string
+	LastPreemptStack []string
 }
 
 // log2Page is the page size of the scenarios: 16 MB pages keep the driver's
@@ -64,6 +65,9 @@ type Opts struct {
 	H2DCycles  int
 	D2HCycles  int
 	RspLatency int // cycles the responder takes to answer
+	// TailTicks: the responder keeps ticking for this many cycles after its
+	// last activity (GPU-side components winding down after a command).
+	TailTicks int
 }
 
 // CmdEvent is one driver-command trace event.
@@ -301,7 +305,14 @@ func (w *World) classifyDeadlock(blocked []Blocked) string {
 				case verifNumCommands(q) == 0:
 					// the queue is empty, the last notification is gone, nobody will notify again
 					// (the window is named by where the waiting thread was last preempted)
-					k = "DrainCommandQueue/notify-before-wait/waiter-preempted-in=" + b.LastPreempt
+					// (only if that happened inside DrainCommandQueue; "-" otherwise)
+					pre := "-"
+					for _, f := range b.LastPreemptStack {
+						if strings.Contains(f, "DrainCommandQueue") {
+							pre = b.LastPreempt
+						}
+					}
+					k = "DrainCommandQueue/notify-before-wait/waiter-preempted-in=" + pre
 				case !engineAlive && verifPending(w.Engine) > 0:
 					// commands and a scheduled tick, but no engine goroutine and nobody left to start one
 					k = "DrainCommandQueue/engine-exit-races-with-enqueue/engine-preempted-in=" + enginePre
@@ -374,6 +385,8 @@ type Responder struct {
 	w       *World
 	port    sim.Port
 	lat     int
+	tail    int
+	idle    int
 	cycle   int
 	pending []pendingRsp
 	// Requests seen, in arrival order (for the oracle)
@@ -381,7 +394,7 @@ type Responder struct {
 }
 
 func newResponder(w *World, lat int) *Responder {
-	r := &Responder{w: w, lat: lat}
+	r := &Responder{w: w, lat: lat, tail: w.Opts.TailTicks, idle: 1 << 30}
 	r.TickingComponent = sim.NewTickingComponent("GPU", w.Engine, 1*sim.GHz, r)
 	r.port = sim.NewPort(r, 8, 8, "GPU.ToDriver")
 	r.AddPort("ToDriver", r.port)
@@ -402,7 +415,12 @@ func (r *Responder) Tick() bool {
 		r.handle(m)
 		progress = true
 	}
-	return progress || len(r.pending) > 0
+	if progress || len(r.pending) > 0 {
+		r.idle = 0
+		return true
+	}
+	r.idle++
+	return r.idle <= r.tail
 }
 
 func (r *Responder) translate(pid vm.PID, vAddr uint64) (uint64, bool) {
